@@ -36,19 +36,24 @@ Definition check_norm_str (c : string * res string) : bool :=
 
 (* ---- normalize_float: exhaustive enumeration with bucketed fingerprints ---- *)
 Definition alphabet : list ascii := ["0"; "1"; "2"; "."; "-"; "+"; "e"; "d"]%char.
+(* second domain: upper-case markers, another digit *)
+Definition alphabet_b : list ascii := ["0"; "7"; "."; "-"; "+"; "E"; "D"; "d"]%char.
 
 (* all strings of length n over the alphabet *)
-Fixpoint words (n : nat) : list string :=
+Fixpoint words_in (al : list ascii) (n : nat) : list string :=
   match n with
   | O => [""]
-  | S m => flat_map (fun c => map (String c) (words m)) alphabet
+  | S m => flat_map (fun c => map (String c) (words_in al m)) al
   end.
 
-Fixpoint words_upto (n : nat) : list string :=
+Fixpoint words_upto_in (al : list ascii) (n : nat) : list string :=
   match n with
   | O => [""]
-  | S m => words_upto m ++ words (S m)
+  | S m => words_upto_in al m ++ words_in al (S m)
   end.
+
+Definition words := words_in alphabet.
+Definition words_upto := words_upto_in alphabet.
 
 Import Uint63.
 Open Scope uint63_scope.
@@ -73,6 +78,12 @@ Definition bucket_hash (prefix : string) (n : nat) : int :=
 
 Definition check_bucket (c : string * nat * int) : bool :=
   let '(prefix, n, expected) := c in eqb (bucket_hash prefix n) expected.
+
+Definition bucket_hash_b (prefix : string) (n : nat) : int :=
+  fold_left (fun acc w => acc + hash_case (prefix ++ w)) (words_upto_in alphabet_b n) 0.
+
+Definition check_bucket_b (c : string * nat * int) : bool :=
+  let '(prefix, n, expected) := c in eqb (bucket_hash_b prefix n) expected.
 
 Close Scope uint63_scope.
 
